@@ -1504,8 +1504,17 @@ def gen_move_elementwise(L, K, rng):
     g.lines.append("moveassign 0 1")
     g.lines.append("observe 0")
     g.stat("moveassign-elementwise-nonempty-target-" + ("reuse" if reuse else "newblock") + ("" if dv.elems else "(empty)"))
-    if rng.random() < 0.5:
+    r = rng.random()
+    if r < 0.4:
         g.op_emplace(0)
+    elif r < 0.8:
+        # fill the target up to the capacity it reports now: the block it kept or got must hold
+        # max_element_count elements, not just the ones moved in
+        n = 0
+        while n < 8 and g.op_emplace(0):
+            n += 1
+        g.lines.append("observe 0")
+        g.stat("moveassign-elementwise-then-filled")
     return g.finish(), g.stats
 
 
